@@ -45,6 +45,10 @@ func Restore(r io.Reader, dstPath string) (int64, error) {
 		return totalRead, fmt.Errorf("snapshot has no database")
 	}
 
+	if full.DbHeader == nil {
+		return totalRead, fmt.Errorf("snapshot header has no database header")
+	}
+
 	// Extract DB file. Wrap the source in a CRC32Reader so we can verify
 	// the bytes match the header's CRC32 without a second pass over disk.
 	dbFile, err := os.Create(dstPath)
@@ -73,9 +77,9 @@ func Restore(r io.Reader, dstPath string) (int64, error) {
 	// Extract and checkpoint any WAL files. Each WAL is verified against
 	// its header CRC32 immediately after read, before any are checkpointed
 	// into the DB, so a corrupt WAL is never applied.
+	var walFiles []string
 	if len(full.WalHeaders) > 0 {
 		dir := filepath.Dir(dstPath)
-		var walFiles []string
 		for i, wh := range full.WalHeaders {
 			walPath := filepath.Join(dir, fmt.Sprintf("restore-wal-%d.tmp", i))
 			wf, err := os.Create(walPath)
@@ -97,6 +101,18 @@ func Restore(r io.Reader, dstPath string) (int64, error) {
 			}
 			walFiles = append(walFiles, walPath)
 		}
+	}
+
+	// The header lists every file in the stream, so the stream must end here. If
+	// it does not, the header does not describe the data -- for example a damaged
+	// header which lost one of its WAL entries -- and what has been extracted so
+	// far must not be passed off as the snapshot.
+	var extra [1]byte
+	if n, _ := io.ReadFull(r, extra[:]); n > 0 {
+		return totalRead + int64(n), fmt.Errorf("unexpected data after the last file in snapshot stream")
+	}
+
+	if len(walFiles) > 0 {
 		if err := db.ReplayWAL(dstPath, walFiles, false); err != nil {
 			return totalRead, fmt.Errorf("checkpointing WALs: %w", err)
 		}
